@@ -5,6 +5,8 @@ CONSTANTS
   MaxSec = 0
   Timeouts = TRUE
   Handoff = TRUE
+  Eager = FALSE
+  Fifo = FALSE
   MaxWait = 99
   UniqueVals = FALSE
   Ghost = TRUE
